@@ -82,3 +82,32 @@ Example demo_selects_B :
   | Ok l => map (fun x => (a_name (o_atom x), a_chain (o_atom x), o_term x)) l
   | Err _ => [] end = [("N", "B", TNplus); ("CA", "B", TNone)].
 Proof. vm_compute. split; reflexivity. Qed.
+
+(* ---- consequences: selecting is idempotent, and depends only on which identifiers are selected ---- *)
+Lemma filter_idem {A} (f : A -> bool) l : filter f (filter f l) = filter f l.
+Proof. induction l as [|x r IH]; cbn [filter]; [reflexivity|]. destruct (f x) eqn:E; cbn [filter]; rewrite ?E, IH; reflexivity. Qed.
+Lemma forallb_filter_sub {A} (p f : A -> bool) l : forallb p l = true -> forallb p (filter f l) = true.
+Proof. induction l as [|x r IH]; cbn [filter forallb]; [reflexivity|]. intros H. apply andb_true_iff in H as [Hx Hr].
+  destruct (f x); cbn [forallb]; rewrite ?Hx; auto. Qed.
+
+Corollary chain_selection_idempotent o ls : chains o <> [] -> forallb wf_line ls = true ->
+  parse o (filter (keeps (chains o)) ls) = parse o ls.
+Proof.
+  intros Hc Hwf. rewrite (parse_chain_filter_is_deletion o ls Hc Hwf).
+  rewrite (parse_chain_filter_is_deletion o (filter (keeps (chains o)) ls) Hc (forallb_filter_sub _ _ _ Hwf)).
+  rewrite filter_idem. reflexivity.
+Qed.
+
+Lemma keeps_ext cs1 cs2 l : (forall c, mem_chr c cs1 = mem_chr c cs2) -> keeps cs1 l = keeps cs2 l.
+Proof. intros H. unfold keeps. destruct (idx 21 l); [rewrite H|]; reflexivity. Qed.
+
+Corollary chain_selection_depends_on_membership o1 o2 ls :
+  ignore_residues o1 = ignore_residues o2 -> keep_protons o1 = keep_protons o2 ->
+  chains o1 <> [] -> chains o2 <> [] -> (forall c, mem_chr c (chains o1) = mem_chr c (chains o2)) ->
+  forallb wf_line ls = true -> parse o1 ls = parse o2 ls.
+Proof.
+  intros Hi Hk H1 H2 Hm Hwf.
+  rewrite (parse_chain_filter_is_deletion o1 ls H1 Hwf), (parse_chain_filter_is_deletion o2 ls H2 Hwf).
+  replace (no_chains o2) with (no_chains o1) by (unfold no_chains; rewrite Hi, Hk; reflexivity).
+  f_equal. apply filter_ext. intros l. apply keeps_ext. exact Hm.
+Qed.
